@@ -5,6 +5,9 @@
 // which the engine compares numerically (512 bit).  Observed values are  true value + symbolic error.
 #include "netcommon.h"
 #include <fstream>
+#include <gnu_gama/xml/localnetworkxml.h>
+#include <gnu_gama/xml/localnetwork_adjustment_results.h>
+#include <gnu_gama/statan.h>
 
 using namespace N;
 static std::string g_prop;
@@ -207,6 +210,54 @@ static void case_export_description(bool obs_level_ih, const std::string& axes =
   sx::reached("net3d-export");
 }
 
+// C12: the adjustment XML of a spatial network (slope distances, zenith angles, height differences, heights) read back by gama's reader
+static void same_printed(Real got, Real want, const std::string& label, sx::f64 abs_tol = 0) {
+  if (sx::is_const(got) && sx::is_const(want)) { sx::f64 a = sx::numeric(got), b = sx::numeric(want); sx::f64 sc = ::fabs(b) > 1 ? ::fabs(b) : 1;
+    sx::check_true(::fabs(a - b) <= (abs_tol > 0 ? abs_tol : (sx::f64)1e-6 * sc), label + " (to the printed precision)", sx::show(got) + " vs " + sx::show(want)); }
+  else sx::check_eq(got, want, label);
+}
+static void case_xml3d(const Spec3& spec, int alg) {
+  // errors small enough for the a priori tests of the writer to have one outcome; the errors of a direction set in increasing order
+  std::vector<Real> err; { size_t k = 0; for (auto& st : spec.st) { int last_dir = -1; for (auto& ob : st.obs) { Real e = sx::input("e" + std::to_string(++k)); if (ob.kind == 1) sx::assume_range(e, Q(-1, 100000), Q(1, 100000)); else sx::assume_range(e, Q(-1, 10000000), Q(1, 10000000));
+        if (ob.kind == 0) { if (last_dir >= 0) sx::assume_lt(err[last_dir], e); last_dir = (int)err.size(); } err.push_back(e); } }
+    for (auto& h : spec.dh) { (void)h; Real e = sx::input("e" + std::to_string(++k)); sx::assume_range(e, Q(-1, 100000), Q(1, 100000)); err.push_back(e); } }
+  B3 b; if (!build3d(b, spec, err, ALGS[alg])) return; std::string tag = std::string(ALGS[alg]) + " xml"; LocalNetwork* IS = b.net.IS.get();
+  { Real crit = GNU_gama::Normal((sx::rat(1) - IS->conf_pr()) / sx::rat(2)); sx::assume_range(crit, mpq_class(19, 10), mpq_class(2)); }
+  R3 r = run3d(b); sx::check_true(r.ok, tag + " adjusted", r.why); if (!r.ok) return;
+  std::ostringstream xml; GNU_gama::LocalNetworkXML writer(IS); writer.write(xml);
+  if (const char* d = getenv("SX_DUMP_GKF")) { static int n = 0; std::ofstream f(std::string(d) + ".result" + std::to_string(++n) + ".xml"); f << xml.str(); }
+  GNU_gama::LocalNetworkAdjustmentResults res;
+  try { std::istringstream in(xml.str()); res.read_xml(in); }
+  catch (const GNU_gama::Exception::parser& e) { sx::fail(tag + " the written XML is rejected by the result reader", std::string(e.what()) + " line " + std::to_string(e.line)); return; }
+  catch (...) { sx::fail(tag + " the written XML is rejected by the result reader", "exception"); return; }
+  const GNU_gama::local::Vec& x = IS->solve(); Real R2Gc = Real((sx::f64)(200.0 / M_PI));
+  sx::check_true(res.project_equations.equations == r.m && res.project_equations.unknowns == r.n && res.project_equations.degrees_of_freedom == r.dof && res.project_equations.defect == r.defect, tag + " counts read back", "");
+  same_printed(res.project_equations.sum_of_squares, r.vpv, tag + " sum of squares read back");
+  int nadj = 0, nfix = 0; for (auto& p : spec.pts) { if (p.status.find("adj") != std::string::npos) nadj++; else nfix++; }
+  sx::check_true((int)res.adjusted_points.size() == nadj && (int)res.fixed_points.size() == nfix, tag + " numbers of adjusted and fixed points", std::to_string(res.adjusted_points.size()) + "/" + std::to_string(res.fixed_points.size()));
+  for (auto& p : res.fixed_points) { const LocalPoint& lp = IS->PD[PointID(p.id)]; sx::check_true(p.hxy && p.hz && lp.fixed_xy() && lp.fixed_z(), tag + " fixed point " + p.id + " has x, y, z", ""); if (!(p.hxy && p.hz)) continue;
+    same_printed(p.x, lp.x(), tag + " fixed x of " + p.id, (sx::f64)1e-8); same_printed(p.y, lp.y(), tag + " fixed y of " + p.id, (sx::f64)1e-8); same_printed(p.z, lp.z(), tag + " fixed z of " + p.id, (sx::f64)1e-8); }
+  for (auto& p : res.adjusted_points) { const LocalPoint& lp = IS->PD[PointID(p.id)]; sx::check_true(p.hxy && p.hz && lp.free_xy() && lp.free_z(), tag + " adjusted point " + p.id + " has x, y, z", ""); if (!(p.hxy && p.hz && lp.free_xy() && lp.free_z())) continue;
+    same_printed(p.x, lp.x() + x(lp.index_x()) / sx::rat(1000), tag + " adjusted x of " + p.id + " read back", (sx::f64)1e-8); same_printed(p.y, lp.y() + x(lp.index_y()) / sx::rat(1000), tag + " adjusted y of " + p.id + " read back", (sx::f64)1e-8);
+    same_printed(p.z, lp.z() + x(lp.index_z()) / sx::rat(1000), tag + " adjusted z of " + p.id + " read back", (sx::f64)1e-8);
+    sx::check_true(p.indx == lp.index_x() && p.indy == lp.index_y() && p.indz == lp.index_z(), tag + " indexes of " + p.id, std::to_string(p.indx) + " " + std::to_string(p.indy) + " " + std::to_string(p.indz)); }
+  for (auto& p : res.approximate_points) { const LocalPoint& lp = IS->PD[PointID(p.id)]; if (p.hz) same_printed(p.z, lp.z(), tag + " approximate z of " + p.id, (sx::f64)1e-8); if (p.hxy) { same_printed(p.x, lp.x(), tag + " approximate x of " + p.id, (sx::f64)1e-8); same_printed(p.y, lp.y(), tag + " approximate y of " + p.id, (sx::f64)1e-8); } }
+  sx::check_true((int)res.obslist.size() == r.m, tag + " observation list length", "");
+  if ((int)res.obslist.size() == r.m) for (int i = 1; i <= r.m; i++) { auto& ob = res.obslist[i - 1]; Observation* real = IS->ptr_obs(i); std::string n = std::to_string(i);
+    sx::check_true(ob.from == real->from().str() && ob.to == real->to().str(), tag + " observation " + n + " end points", ob.from + " " + ob.to);
+    Real m0 = IS->m_0();
+    if (dynamic_cast<S_Distance*>(real)) { sx::check_true(ob.xml_tag == "slope-distance", tag + " observation " + n + " is a slope distance", ob.xml_tag);
+      same_printed(ob.obs, real->value(), tag + " observed slope distance " + n, (sx::f64)1e-8); same_printed(ob.adj, real->value() + r.r[i - 1] / sx::rat(1000), tag + " adjusted slope distance " + n, (sx::f64)1e-8); same_printed(ob.stdev, IS->stdev_obs(i), tag + " stdev of adjusted slope distance " + n); }
+    else if (dynamic_cast<Z_Angle*>(real)) { sx::check_true(ob.xml_tag == "zenith-angle", tag + " observation " + n + " is a zenith angle", ob.xml_tag);
+      Real m = R2Gc * real->value(); same_printed(ob.obs, m, tag + " observed zenith angle " + n, (sx::f64)1e-8); same_printed(ob.adj, m + r.r[i - 1] / sx::rat(10000), tag + " adjusted zenith angle " + n, (sx::f64)1e-8); same_printed(ob.stdev, IS->stdev_obs(i), tag + " stdev of adjusted zenith angle " + n); }
+    else if (dynamic_cast<Direction*>(real)) { sx::check_true(ob.xml_tag == "direction", tag + " observation " + n + " is a direction", ob.xml_tag);
+      Real m = R2Gc * real->value(); same_printed(ob.obs, m, tag + " observed direction " + n, (sx::f64)1e-8); Real a = m + r.r[i - 1] / sx::rat(10000); if (a < sx::rat(0)) a = a + sx::rat(400); if (a >= sx::rat(400)) a = a - sx::rat(400); same_printed(ob.adj, a, tag + " adjusted direction " + n, (sx::f64)1e-8); }
+    else if (dynamic_cast<H_Diff*>(real)) { sx::check_true(ob.xml_tag == "height-diff", tag + " observation " + n + " is a height difference", ob.xml_tag);
+      same_printed(ob.obs, real->value(), tag + " observed height difference " + n, (sx::f64)1e-8); same_printed(ob.adj, real->value() + r.r[i - 1] / sx::rat(1000), tag + " adjusted height difference " + n, (sx::f64)1e-8); same_printed(ob.stdev, IS->stdev_obs(i), tag + " stdev of adjusted height difference " + n); }
+    (void)m0; same_printed(ob.qrr, IS->wcoef_res(i), tag + " qrr " + n, (sx::f64)6e-4); }
+  sx::reached("net3d-xml");
+}
+
 static Spec3 polar(const std::string& name, bool heights, bool second_station, bool second_without_ih = false, bool tall = false) {
   Spec3 s; s.name = name; Q X0 = 1000, Y0 = 2000, Z0 = 300;
   s.pts.push_back({"S", X0, Y0, Z0, "fix=\"xyz\"", true});
@@ -254,6 +305,73 @@ static Spec3 traverse3d(const std::string& name, bool heights) {
   return s;
 }
 
+
+// C06 on inputs given as text (observation types the spec structures above do not carry): error-free observations printed with 8-10
+// decimals; every observation takes part, nothing is removed, adjusted = generating coordinates to 1e-5 m
+struct Truth { const char* id; double x, y, z; bool has_xy, has_z; };
+static void case_consistent_text(const std::string& name, const std::string& text, const std::vector<Truth>& truth, int alg) {
+  B3 b; std::string tag = std::string(ALGS[alg]) + " " + name;
+  if (!b.net.parse(text)) { sx::fail(tag + ": input rejected by the parser", b.net.parse_error + " line " + std::to_string(b.net.parse_line)); return; }
+  b.obs = b.net.all_obs(); b.net.prepare(ALGS[alg], true); LocalNetwork* IS = b.net.IS.get();
+  for (auto& t : truth) { const LocalPoint& lp = IS->PD[PointID(t.id)]; sx::check_true((!t.has_xy || lp.test_xy()) && (!t.has_z || lp.test_z()), tag + ": point " + t.id + " has approximate coordinates", ""); }
+  bool huge = IS->huge_abs_terms(); sx::check_true(!huge, tag + ": no observation has an outlying absolute term (none is removed)", "");
+  R3 r = run3d(b); sx::check_true(r.ok, tag + ": adjusted", r.why); if (!r.ok) return;
+  sx::check_true(r.m == (int)b.obs.size(), tag + ": every observation takes part", std::to_string(r.m) + " of " + std::to_string(b.obs.size()));
+  sx::check_true(IS->removed_points.empty(), tag + ": no point removed", "");
+  for (auto& t : truth) { const LocalPoint& lp = IS->PD[PointID(t.id)]; if (!lp.active()) continue;
+    if (t.has_xy && lp.free_xy() && lp.index_x()) { near0(lp.x() + r.xv[lp.index_x() - 1] / sx::rat(1000) - Real(t.x), mpq_class(1, 100000), tag + ": adjusted x of " + t.id); near0(lp.y() + r.xv[lp.index_y() - 1] / sx::rat(1000) - Real(t.y), mpq_class(1, 100000), tag + ": adjusted y of " + t.id); }
+    if (t.has_z && lp.free_z() && lp.index_z()) near0(lp.z() + r.xv[lp.index_z() - 1] / sx::rat(1000) - Real(t.z), mpq_class(1, 100000), tag + ": adjusted z of " + t.id); }
+  sx::reached("net3d-consistent");
+}
+static const char* TEXT_VECTOR_BETWEEN_POLAR_POINTS =
+    "<?xml version=\"1.0\"?>\n"
+    "<gama-local>\n"
+    "<network axes-xy=\"ne\" angles=\"left-handed\">\n"
+    "<parameters sigma-apr=\"10\" conf-pr=\"0.95\" tol-abs=\"1000\" sigma-act=\"apriori\"/>\n"
+    "<points-observations>\n"
+    "<point id=\"A\" x=\"1000.00000000\" y=\"1000.00000000\" z=\"100.00000000\" fix=\"xyz\"/>\n"
+    "<point id=\"B\" x=\"1300.00000000\" y=\"1100.00000000\" z=\"105.00000000\" fix=\"xyz\"/>\n"
+    "<point id=\"P\" adj=\"xyz\"/>\n"
+    "<point id=\"Q\" adj=\"xyz\"/>\n"
+    "<obs from=\"A\">\n"
+    "  <direction to=\"B\" val=\"387.4832764699\" stdev=\"10\"/>\n"
+    "  <direction to=\"P\" val=\"42.7762116818\" stdev=\"10\"/>\n"
+    "  <distance to=\"P\" val=\"269.25824036\" stdev=\"5\"/>\n"
+    "  <direction to=\"Q\" val=\"31.4384631021\" stdev=\"10\"/>\n"
+    "  <distance to=\"Q\" val=\"471.69905660\" stdev=\"5\"/>\n"
+    "</obs>\n"
+    "<obs from=\"B\">\n"
+    "  <direction to=\"A\" val=\"87.4832764699\" stdev=\"10\"/>\n"
+    "  <direction to=\"P\" val=\"26.0334470602\" stdev=\"10\"/>\n"
+    "  <distance to=\"P\" val=\"250.00000000\" stdev=\"5\"/>\n"
+    "  <direction to=\"Q\" val=\"377.5136913423\" stdev=\"10\"/>\n"
+    "  <distance to=\"Q\" val=\"304.13812651\" stdev=\"5\"/>\n"
+    "</obs>\n"
+    "<height-differences>\n"
+    "  <dh from=\"A\" to=\"P\" val=\"10.00000000\" stdev=\"1\"/>\n"
+    "  <dh from=\"B\" to=\"Q\" val=\"15.00000000\" stdev=\"1\"/>\n"
+    "</height-differences>\n"
+    "<vectors>\n"
+    "  <vec from=\"P\" to=\"Q\" dx=\"150.00000000\" dy=\"150.00000000\" dz=\"10.00000000\"/>\n"
+    "  <cov-mat dim=\"3\" band=\"0\">\n"
+    "   1 1 1\n"
+    "  </cov-mat>\n"
+    "</vectors>\n"
+    "</points-observations>\n"
+    "</network>\n"
+    "</gama-local>\n";
+
+// a height difference hanging on a point whose own height comes from slope distance and zenith angle (the levelled point is seen by
+// directions only): the heights have to be found in two rounds of the strategies
+static Spec3 hdiff_on_trig_point() {
+  Spec3 s; s.name = "hdiff-on-trig-point";
+  s.pts = {{"A", 1000, 1000, 100, "fix=\"xyz\"", true}, {"B", 1300, 1100, 105, "fix=\"xyz\"", true}, {"P", 1100, 1250, 110, "adj=\"xyz\"", false}, {"Q", 1250, 1400, 120, "adj=\"xyz\"", false}};
+  { St3 st; st.from = 0; st.zero = Q(17, 10); st.ih = Q(0); st.obs = {{0, 1, Q(10), Q(0)}, {0, 2, Q(10), Q(0)}, {1, 2, Q(5), Q(0)}, {2, 2, Q(10), Q(0)}, {0, 3, Q(10), Q(0)}}; s.st.push_back(st); }
+  { St3 st; st.from = 1; st.zero = Q(46, 10); st.ih = Q(0); st.obs = {{0, 0, Q(10), Q(0)}, {0, 2, Q(10), Q(0)}, {1, 2, Q(5), Q(0)}, {2, 2, Q(10), Q(0)}, {0, 3, Q(10), Q(0)}}; s.st.push_back(st); }
+  s.dh.push_back({2, 3, Q(1)});
+  return s;
+}
+
 static void gen_cases(const sx::Options& opt, std::vector<sx::Case>& cases) {
   g_prop = opt.prop; bool th = opt.tier == "thorough";
   auto add = [&](const std::string& n, const std::string& fam, std::function<void()> f) { cases.push_back({n, fam, f}); };
@@ -267,6 +385,10 @@ static void gen_cases(const sx::Options& opt, std::vector<sx::Case>& cases) {
   if (on("C06")) { for (int alg = 0; alg < (th ? 3 : 1); alg++) { auto sp = std::make_shared<Spec3>(free_station("free-station", false)); add(std::string("net3d/consistent/free-station/") + ALGS[alg] + "/acord", "spatial networks", [sp, alg] { case_consistent(*sp, alg, true); }); } }
   if (on("C06")) { int k = 0; for (int h = 0; h < 2; h++) { auto sp = std::make_shared<Spec3>(traverse3d(h ? "traverse-heights" : "traverse-plain", h != 0)); for (int omit = 0; omit < 2; omit++) { if (!th && !omit) continue; int alg = (k++) % 3;
         add("net3d/consistent/" + sp->name + "/" + ALGS[alg] + (omit ? "/acord" : "/given"), "spatial networks", [sp, alg, omit] { Spec3 t = *sp; if (!omit) for (auto& p : t.pts) p.give = true; case_consistent(t, alg, omit != 0); }); } } }
+  if (on("C12")) { int k = 0; for (auto& s : specs) { if (s.name != "polar-heights" && s.name != "polar-plain" && !th) continue; int alg = (k++) % 3; auto sp = std::make_shared<Spec3>(s); add("net3d/xml/" + s.name + "/" + ALGS[alg], "spatial networks", [sp, alg] { case_xml3d(*sp, alg); }); } }
+  if (on("C06")) { { auto sp = std::make_shared<Spec3>(hdiff_on_trig_point()); add("net3d/consistent/" + sp->name + "/cholesky/acord", "spatial networks", [sp] { case_consistent(*sp, 1, true); }); }
+    std::vector<Truth> tr{{"P", 1100, 1250, 110, true, true}, {"Q", 1250, 1400, 120, true, true}};
+    add("net3d/consistent/vector-between-polar-points/envelope/acord", "spatial networks", [tr] { case_consistent_text("vector between two points fixed by polar shots and levelling", TEXT_VECTOR_BETWEEN_POLAR_POINTS, tr, 0); }); }
   if (on("C13")) { for (int v = 0; v < 2; v++) add(std::string("net3d/export-description/") + (v ? "station-height" : "sight-heights"), "spatial networks", [v] { case_export_description(v != 0); });
     add("net3d/export-description/station-height-covmat", "spatial networks", [] { case_export_description(true, "ne", "left-handed", true); });
     add("net3d/export-description/station-height-degrees", "spatial networks", [] { case_export_description(true, "ne", "left-handed", false, true); });
